@@ -128,24 +128,63 @@ RECURSIVE VisFrom(_, _)
 VisFrom(b, y) == IF y >= b.h THEN <<>> ELSE VisRow(b, y, 0) \o VisFrom(b, y + 1)
 Vis(b) == VisFrom(b, 0)
 
-\* zero-width combining marks only (the statement restricts combining lists to them)
+---------------------------------------------------------------------------
+(* C17: what a rune looks like on a terminal whose locale is a legacy character set *)
+
+Encodable(c, r) == c.cs = "utf8" \/ r < 128 \/ \E i \in 1..Len(c.dec) : c.dec[i][2] = r
+
+\* VT100 line-drawing names of terminfo(5) and the runes they stand for (names on which sources
+\* disagree - h board, i lantern - and the non-terminfo b c d e are left out)
+AcsNameRune == << <<43, 8594>>, <<44, 8592>>, <<45, 8593>>, <<46, 8595>>, <<48, 9608>>, <<96, 9670>>, <<97, 9618>>,
+                  <<102, 176>>, <<103, 177>>, <<106, 9496>>, <<107, 9488>>, <<108, 9484>>, <<109, 9492>>, <<110, 9532>>,
+                  <<111, 9146>>, <<112, 9147>>, <<113, 9472>>, <<114, 9148>>, <<115, 9149>>, <<116, 9500>>, <<117, 9508>>,
+                  <<118, 9524>>, <<119, 9516>>, <<120, 9474>>, <<121, 8804>>, <<122, 8805>>, <<123, 960>>, <<124, 8800>>,
+                  <<125, 163>>, <<126, 183>> >>
+\* byte the terminal wants for rune r in alternate-character-set mode; 0 if the description has none
+AcsByte(c, r) ==
+    LET names == {AcsNameRune[i][1] : i \in {k \in 1..Len(AcsNameRune) : AcsNameRune[k][2] = r}}
+        ac == c.ti.AltChars
+        hits == {k \in 1..(Len(ac) \div 2) : ac[2 * k - 1] \in names}
+    IN IF hits = {} THEN 0 ELSE ac[2 * (CHOOSE k \in hits : \A j \in hits : k <= j)]
+Unsure(c, r) == \* runes whose ACS name is disputed: nothing is required of them
+    r \in {9617, 9618, 167, 9731, 9225, 9228, 9227, 9226}
+FbChar(fb, r) == LET hits == {i \in 1..Len(fb) : fb[i][1] = r} IN
+                 IF hits = {} THEN <<>> ELSE fb[CHOOSE i \in hits : \A j \in hits : i >= j][2]
+
+\* expected glyph of a primary rune: <<code point or ACS byte, acs flag>>
+Glyph(c, fb, r) ==
+    IF Encodable(c, r) THEN <<r, FALSE>>
+    ELSE IF AcsByte(c, r) # 0 THEN <<AcsByte(c, r), TRUE>>
+    ELSE IF Len(FbChar(fb, r)) = 1 THEN <<FbChar(fb, r)[1], FALSE>>
+    ELSE <<63, FALSE>>
+
 Resolve(st, def) == IF st = DefaultStyle THEN def ELSE st
 
 \* parts of terminal cell tc that are wrong for visible entry v (default style def, or the
 \* default in force when the cell was last painted, pdef)
-CellWrong(c, tc, v, def, pdef) ==
-    IF v.k = "cont" THEN (IF tc.w = 0 /\ tc.cp = 0 THEN {} ELSE {"cont"})
-    ELSE (IF tc.cp = v.cp /\ ~tc.acs THEN {} ELSE {"rune"})
-         \cup (IF tc.comb = v.comb THEN {} ELSE {"comb"})
-         \cup (IF tc.w = (IF v.k = "wide" THEN 2 ELSE 1) THEN {} ELSE {"width"})
-         \cup (LET w1 == StyleWrong(c, tc, Resolve(v.st, def)) IN
-               IF w1 = {} \/ v.st # DefaultStyle THEN w1
-               ELSE IF StyleWrong(c, tc, Resolve(v.st, pdef)) = {} THEN {} ELSE w1)
+CellWrong(c, fb, tc, v, pv, def, pdef) ==
+    LET legacywide == c.cs # "utf8" /\ ~Encodable(c, v.cp)      \* a wide rune the charset lacks: "? " in two narrow cells
+        styleW == LET w1 == StyleWrong(c, tc, Resolve(v.st, def)) IN
+                  IF w1 = {} \/ v.st # DefaultStyle THEN w1
+                  ELSE IF StyleWrong(c, tc, Resolve(v.st, pdef)) = {} THEN {} ELSE w1
+    IN
+    IF v.k = "cont" THEN
+        IF legacywide THEN (IF tc.cp = 32 /\ tc.w = 1 THEN {} ELSE {"rune"})
+        ELSE (IF tc.w = 0 /\ tc.cp = 0 THEN {} ELSE {"cont"})
+    ELSE IF v.k = "wide" /\ legacywide THEN
+        (IF tc.cp = Glyph(c, fb, v.cp)[1] /\ tc.w = 1 THEN {} ELSE {"rune"}) \cup styleW
+    ELSE IF c.cs # "utf8" /\ Unsure(c, v.cp) /\ ~Encodable(c, v.cp) THEN {}
+    ELSE LET g == Glyph(c, fb, v.cp)
+             comb == IF c.cs = "utf8" THEN v.comb ELSE SelectSeq(v.comb, LAMBDA x : Encodable(c, x))
+         IN (IF tc.cp = g[1] /\ tc.acs = g[2] THEN {} ELSE {"rune"})
+            \cup (IF tc.comb = comb THEN {} ELSE {"comb"})
+            \cup (IF tc.w = (IF v.k = "wide" THEN 2 ELSE 1) THEN {} ELSE {"width"})
+            \cup styleW
 
 ---------------------------------------------------------------------------
 (* Logical screen state *)
 
-InitScr == [def |-> DefaultStyle, pdef |-> <<>>, curx |-> -1, cury |-> -1, cstyle |-> 0, ccol |-> <<4, 1>>,
+InitScr == [fb |-> <<>>, def |-> DefaultStyle, pdef |-> <<>>, curx |-> -1, cury |-> -1, cstyle |-> 0, ccol |-> <<4, 1>>,
             crgb |-> 0, eshape |-> -1, eccol |-> DefCol,
             running |-> FALSE, fini |-> FALSE, mflags |-> 0, paste |-> FALSE, focus |-> FALSE,
             title |-> <<>>, trusted |-> FALSE, tw |-> 0, th |-> 0,
@@ -216,7 +255,7 @@ DisplayDevs(c, t, b, s) ==
             IF cell.lock # 0 \/ (vis[i].k = "cont" /\ b.cells[i-1].lock # 0) THEN {}
             ELSE { Dev("C01.cell", p, (i - 1) % b.w, (i - 1) \div b.w,
                        [k |-> vis[i].k, cp |-> vis[i].cp, got |-> t.g[i].cp])
-                   : p \in CellWrong(c, t.g[i], vis[i], s.def, s.pdef[i]) }
+                   : p \in CellWrong(c, s.fb, t.g[i], vis[i], IF i > 1 THEN vis[i-1] ELSE vis[i], s.def, s.pdef[i]) }
           : i \in 1..Len(b.cells) }
     \cup (IF t.scrolled THEN {Dev("C01.scrolled", "scroll", 0, 0, 0)} ELSE {})
     \cup (LET inr == s.curx >= 0 /\ s.cury >= 0 /\ s.curx < b.w /\ s.cury < b.h IN
@@ -373,6 +412,7 @@ Handle(e) ==
            <<term, LockAll(cb, reg, e.lock), [scr EXCEPT !.unl = IF e.lock THEN @ \ reg ELSE @ \cup reg], {}>>
       [] e.ev = "Show" -> Draw(e, FALSE)
       [] e.ev = "Sync" -> Draw(e, TRUE)
+      [] e.ev = "Hang" -> <<term, cb, scr, {Dev("C01.hang", e.call, 0, 0, 0)}>>
       [] e.ev = "Redraw" ->
            \* the resize notification makes the main loop redraw everything
            IF scr.running THEN Draw(e, TRUE) ELSE <<term, cb, scr, {}>>
@@ -395,6 +435,13 @@ Handle(e) ==
       [] e.ev = "EnableFocus" -> ModeCall(e, [scr EXCEPT !.focus = TRUE])
       [] e.ev = "DisableFocus" -> ModeCall(e, [scr EXCEPT !.focus = FALSE])
       [] e.ev = "SetTitle" -> ModeCall(e, [scr EXCEPT !.title = e.s])
+      [] e.ev = "Fallback" ->
+           <<term, cb, [scr EXCEPT !.fb = IF e.on THEN Append(@, <<e.r, e.subst>>)
+                                          ELSE SelectSeq(@, LAMBDA p : p[1] # e.r)], {}>>
+      [] e.ev = "CanDisplay" ->
+           LET want == Encodable(cfg, e.r) \/ AcsByte(cfg, e.r) # 0 \/ (e.fb /\ \E i \in 1..Len(scr.fb) : scr.fb[i][1] = e.r) IN
+           <<term, cb, scr, IF e.res = want \/ (Unsure(cfg, e.r) /\ ~Encodable(cfg, e.r)) THEN {}
+                            ELSE {Dev("C17.candisplay", IF e.fb THEN "with_fallbacks" ELSE "plain", 0, 0, <<e.r, e.res>>)}>>
       [] e.ev = "SetSize" ->
            \* SetSize invalidates the cells and re-reads the window size
            LET t1 == Feed(term, e)
@@ -422,9 +469,9 @@ Next ==
             LET c0 == e @@ [oppen |-> <<DefCol, DefCol>>]
                 c1 == [c0 EXCEPT !.oppen = OpPen(c0)]
             IN /\ cfg' = c1
-               /\ term' = T!NewTerm(e.W, e.H, e.cs, <<>>, {e.wide[i] : i \in 1..Len(e.wide)},
+               /\ term' = T!NewTerm(e.W, e.H, e.cs, {e.dec[i] : i \in 1..Len(e.dec)}, {e.wide[i] : i \in 1..Len(e.wide)},
                                     {e.zero[i] : i \in 1..Len(e.zero)}, Quirks(c1))
-               /\ cb' = CB!EmptyBuf /\ scr' = [InitScr EXCEPT !.tw = e.W, !.th = e.H] /\ nviol' = nviol
+               /\ cb' = CB!EmptyBuf /\ scr' = [InitScr EXCEPT !.tw = e.W, !.th = e.H, !.fb = e.fb0] /\ nviol' = nviol
        ELSE LET r  == Handle(e)
                 ts == TtyStep(r[3], e)
                 devs == r[4] \cup ts[2]
